@@ -40,6 +40,27 @@ def conformance(raw):
                 if st is None or ld is None or ld < st: return 'reader %s: outermost unlock does not store its ctr before loading gp.futex: %s' % (t, ' '.join(ks))
     return None
 
+def conformance_compat(raw):
+    """program order of the futex fallback against Futex/CompatFutex.v (platform without the futex system call): pthread_cond_wait is called with the compat mutex
+    held, and pthread_cond_broadcast is issued while holding that same mutex (that is what makes a sleeper's "check the word, then queue" atomic w.r.t. the wake-up)"""
+    held = {}; cmx = {}
+    for l in raw.splitlines():
+        p = l.split()
+        if len(p) < 3 or not p[0].isdigit(): continue
+        t, k, loc = p[0], p[1], p[2]
+        h = held.setdefault(t, [])
+        if k == 'lock' or (k == 'trylock' and p[-1] == 'ok'): h.append(loc)
+        elif k == 'unlock' and loc in h: h.remove(loc)
+        elif k == 'cond_wait':
+            if not h: return 'thread %s calls pthread_cond_wait on %s without holding a mutex' % (t, loc)
+            cmx[loc] = h[-1]
+        elif k == 'cond_woken': h.append(cmx.get(loc, '?'))        # the mutex is re-acquired on the way out of pthread_cond_wait
+        elif k == 'cond_broadcast':
+            need = cmx.get(loc)
+            if (need and need not in h) or (not need and not h):
+                return 'thread %s issues the wake-up broadcast on %s without holding the mutex the sleepers check the futex word under: a sleeper between its check and its pthread_cond_wait misses it' % (t, loc)
+    return None
+
 def conformance_qsbr(raw):
     """program-order facts the Futex/QsbrFutex.v model relies on, checked on the implementation trace of src/urcu-qsbr.c:
        reader  (quiescent state / offline): store of its ctr ; load of its waiting flag ; on 1: store waiting 0 ; load gp.futex ; on -1: store gp.futex 0 ; FUTEX_WAKE
@@ -139,7 +160,7 @@ def run_flavor(ctx, name, src, defs, progs, n, conf=True):
     rs = run_many([[impl, p, s + tail] for p, s in cases], timeout=30)
     nor = 0; slept = 0
     for (p, s), (rc, raw) in zip(cases, rs):
-        o = stuck_oracle(p, s, None, raw) or (G.qsbr_oracle if 'qsbr' in name else G.oracle)(p, s, None, raw) or (conformance(raw) if conf else None) or (conformance_qsbr(raw) if 'qsbr' in name else None)
+        o = stuck_oracle(p, s, None, raw) or (G.qsbr_oracle if 'qsbr' in name else G.oracle)(p, s, None, raw) or (conformance(raw) if conf else None) or (conformance_qsbr(raw) if 'qsbr' in name else None) or (conformance_compat(raw) if 'nofutex' in name else None)
         if 'BUG ' in raw or 'ABORT' in raw or 'TIMEOUT' in raw: o = 'abnormal run: ' + raw[-300:]
         if o:
             nor += 1
